@@ -14,6 +14,9 @@ func init() { registry["C13"] = c13 }
 
 func c13(r *R) {
 	L := 6
+	if thorough {
+		L = 9
+	}
 	alpha := []int{0, 1, 2}
 	all := enum.AllSlices(alpha, L)
 	r.Sample(fmt.Sprintf("every []int of length <= %d over %v with every probe in {0,1,2,3} and every index in -(len+3)..len+3", L, alpha))
